@@ -167,7 +167,7 @@ def handle (toks : List String) : Option String :=
         | none => "unprintable"
         | some s => "ok " ++ enc s
   | "c06.normal" :: rest => some <|
-      -- is the component in the normal form of `C06Line.line_roundtrip_full` (hypotheses evaluated by Lean)?
+      -- is the component in the normal form of `C06Line.line_roundtrip_full_partial` (hypotheses evaluated by Lean)?
       match decCpt rest with
       | none => "bad-op"
       | some c =>
